@@ -241,6 +241,17 @@ def is_self_signed_ok(cert: dict) -> bool:
     return signature_ok(cert_pub(cert), enc_tbs_cert(cert["toBeSigned"]), cert.get("signature"), None) is not None
 
 
+def cert_wellformed(cert: dict) -> bool:
+    """Value constraints of the certificate fields that are NOT covered by the issuer's signature (the ASN.1
+    schema fixes ``version`` to 3; ETSI TS 103 097 clause 6 uses explicit certificates with a verification key).
+    asn1tools does not enforce value constraints when decoding, so the oracle does."""
+    try:
+        return (cert.get("version") == 3 and cert.get("type") == "explicit"
+                and cert["toBeSigned"]["verifyKeyIndicator"][0] == "verificationKey")
+    except Exception:  # noqa: BLE001
+        return False
+
+
 def link_ok(cert: dict, issuer: dict) -> bool:
     """``cert`` names ``issuer`` by digest and its signature verifies under the issuer's key."""
     iss = cert.get("issuer", (None, None))
@@ -263,8 +274,9 @@ class Trust:
         if k is not None:
             self.pool.setdefault(k, c)
 
-    def chain(self, cert: dict, extra: list = (), check_perms=False, max_len=6):
-        """Return the list [cert, issuer, ..., root] of a verifying chain up to a configured root, or None."""
+    def chain(self, cert: dict, extra: list = (), check_perms=False, max_len=6, strict=False):
+        """Return the list [cert, issuer, ..., root] of a verifying chain up to a configured root, or None.
+        ``strict`` additionally demands ``cert_wellformed`` of every certificate of the chain."""
         cands = dict(self.pool)
         for c in extra:
             k = h8(c)
@@ -273,6 +285,8 @@ class Trust:
         cur, out = cert, [cert]
         for _ in range(max_len):
             k = h8(cur)
+            if strict and not cert_wellformed(cur):
+                return None
             if k in self.roots and enc_cert(self.roots[k]) == enc_cert(cur):
                 return out
             iss = cur.get("issuer", (None, None))
@@ -295,7 +309,7 @@ class Verdict(dict):
     __getattr__ = dict.get
 
 
-def classify(sec: bytes, trust: Trust, known_ats: dict, check_perms=False) -> Verdict:
+def classify(sec: bytes, trust: Trust, known_ats: dict, check_perms=False, strict=True) -> Verdict:
     """Authenticity of one EtsiTs103097Data octet string from first principles.
 
     ``known_ats`` maps HashedId8 -> certificate dict of tickets the receiver may resolve a digest signer with.
@@ -329,9 +343,12 @@ def classify(sec: bytes, trust: Trust, known_ats: dict, check_perms=False) -> Ve
         at, extra = certs[0], certs[1:]
     else:
         return Verdict(authentic=False, why="signer_" + str(signer[0]), **base)
-    ch = trust.chain(at, extra, check_perms=check_perms)
+    ch = trust.chain(at, extra, check_perms=check_perms, strict=strict)
     if ch is None or len(ch) < 2:
-        return Verdict(authentic=False, why="chain", signer=h8(at), at=at, **base)
+        why = "chain"
+        if strict and trust.chain(at, extra, check_perms=check_perms, strict=False) is not None:
+            why = "chain_malformed_certificate"      # signatures verify, a field outside the signed part is invalid
+        return Verdict(authentic=False, why=why, signer=h8(at), at=at, **base)
     conv = signature_ok(cert_pub(at), enc_tbs_data(tbs), sd.get("signature"), enc_cert(at))
     if conv is None:
         return Verdict(authentic=False, why="signature", signer=h8(at), at=at, **base)
